@@ -6,6 +6,7 @@ import GqlVerif.Proofs.C01RecursiveV
 import GqlVerif.Proofs.C01Rust
 import GqlVerif.Proofs.C01VariantSpread
 import GqlVerif.Proofs.C01VariantSpreadE
+import GqlVerif.Proofs.C01VariantSpreadG
 open GqlVerif.C01
 #print axioms accepts_mono
 #print axioms conforming_int_accepted
@@ -99,3 +100,29 @@ open GqlVerif.C01
 #print axioms GqlVerif.C01.E2E.rtAbsD
 #print axioms GqlVerif.C01.E2E.bs_roundtripH
 #print axioms GqlVerif.C01.E2E.variantspread_b_rust_names_needed
+-- class tightened after the independent review (no key with two readers at an abstract position), content theorem, class extensions (Proofs/C01VariantSpread{E,F,G,H}.lean)
+#print axioms GqlVerif.C01.E2E.absOkS_disjoint
+#print axioms GqlVerif.C01.E2E.variantspread_b_merge_loses_fields
+#print axioms GqlVerif.C01.E2E.variantspread_b_inline_merge_loses_fields
+#print axioms GqlVerif.C01.E2E.variantspread_content
+#print axioms GqlVerif.C01.E2E.variantspread_roundtrip_content
+#print axioms GqlVerif.C01.E2E.merge_loss_not_sameContent
+#print axioms GqlVerif.C01.E2E.mi_items_shape
+#print axioms GqlVerif.C01.E2E.mi_roundtrip
+#print axioms GqlVerif.C01.E2E.variantspread_two_inline_overlap_dup_field
+#print axioms GqlVerif.C01.E2E.ls_items_shape
+#print axioms GqlVerif.C01.E2E.ls_roundtrip
+#print axioms GqlVerif.C01.E2E.variantspread_lone_possible_type_rejects
+#print axioms GqlVerif.C01.E2E.variantSpreadOp2_of_variantSpreadOp
+#print axioms GqlVerif.C01.E2E.variantspread2_items_shape
+#print axioms GqlVerif.C01.E2E.conformsV_norm
+#print axioms GqlVerif.C01.E2E.variantspread2_accepts
+#print axioms GqlVerif.C01.E2E.variantspread2_lossless
+#print axioms GqlVerif.C01.E2E.variantspread2_roundtrip
+#print axioms GqlVerif.C01.E2E.variantspread2_content
+#print axioms GqlVerif.C01.E2E.variantspread2_roundtrip_content
+#print axioms GqlVerif.C01.E2E.a2_items_shape
+#print axioms GqlVerif.C01.E2E.a2_roundtripH
+#print axioms GqlVerif.C01.E2E.variantspread2_alias_keeps_sibling
+#print axioms GqlVerif.C01.E2E.variantspread2_alias_type_needed
+#print axioms GqlVerif.C01.E2E.variantspread2_edge_needed
